@@ -120,7 +120,7 @@ func cmdIntro(args []string) {
 				defer func() {
 					if p := recover(); p != nil {
 						obs = map[string]interface{}{"ev": "obs", "panic": fmt.Sprint(p), "ok": false, "len": -1, "outs": []int{}, "outnil": []bool{}, "errnil": false, "errtok": -1,
-							"unsat": false, "inp": []jval{}, "out": []jval{}, "values": []jval{}, "named": []int{}, "typed": []int{}, "ts": []int{}, "roundtrip": []int{}, "accept": false}
+							"unsat": false, "inp": []jval{}, "out": []jval{}, "inp2": []jval{}, "out2": []jval{}, "values": []jval{}, "named": []int{}, "typed": []int{}, "ts": []int{}, "roundtrip": []int{}, "roundtrip2": []int{}, "accept": false}
 					}
 				}()
 				switch *kind {
@@ -156,6 +156,7 @@ type d17 struct {
 	TNil   bool     `json:"tnil"`
 	Once   bool     `json:"once"`
 	Second bool     `json:"second"`
+	How    string   `json:"how"`
 }
 
 func tokOfAny(x interface{}) int {
@@ -267,7 +268,21 @@ func obsC17(raw json.RawMessage) map[string]interface{} {
 			return map[string]interface{}{"ev": "obs", "len": -1, "outs": []int{}, "outnil": []bool{}, "errnil": false, "errtok": -1, "unsat": false, "detail": "first call did not resolve"}
 		}
 	}
-	res := f.Call()
+	var res am.Result
+	switch d.How {
+	case "redef":
+		rf, err := f.Redefine()
+		if err != nil {
+			return map[string]interface{}{"ev": "obs", "len": -1, "outs": []int{}, "outnil": []bool{}, "errnil": false, "errtok": -1, "unsat": false, "detail": "redefine: " + err.Error()}
+		}
+		res = rf.Call()
+	case "nilarg":
+		res = f.Call(nil)
+	case "generr":
+		res = f.Call(am.Typed(scn.MkValue("T5", 77).Interface()), am.ConverterGen(func(am.Value) (*am.Func, error) { return nil, errors.New("generator refuses") }))
+	default:
+		res = f.Call()
+	}
 	obs := map[string]interface{}{"ev": "obs", "len": res.Len()}
 	outs := []int{}
 	outnil := []bool{}
@@ -283,7 +298,10 @@ func obsC17(raw json.RawMessage) map[string]interface{} {
 	var ua *am.ErrArgumentUnsatisfied
 	obs["unsat"] = e != nil && errors.As(e, &ua)
 	if e != nil && !obs["unsat"].(bool) {
-		obs["errtok"] = tokOfAny(e)
+		switch e.(type) {
+		case *scn.FailErr, *myErr:
+			obs["errtok"] = tokOfAny(e)
+		} // (an error of the library itself carries no token: 0)
 	}
 	return obs
 }
@@ -374,6 +392,9 @@ func obsC14(raw json.RawMessage) map[string]interface{} {
 		fn = 42
 	case "nil":
 		fn = nil
+	case "ptrfunc":
+		pf := func(scn.T1) {}
+		fn = &pf
 	case "S1":
 		fn = func(stS1) {}
 	case "S2":
@@ -447,15 +468,23 @@ func obsC14(raw json.RawMessage) map[string]interface{} {
 		}
 		f, err = r.f, r.err
 	case <-time.After(3 * time.Second):
-		return map[string]interface{}{"ev": "obs", "ok": false, "inp": []jval{}, "out": []jval{}, "panic": "timeout: NewFunc did not return"}
+		return map[string]interface{}{"ev": "obs", "ok": false, "inp": []jval{}, "out": []jval{}, "inp2": []jval{}, "out2": []jval{}, "panic": "timeout: NewFunc did not return"}
 	}
-	obs := map[string]interface{}{"ev": "obs", "ok": err == nil, "inp": []jval{}, "out": []jval{}}
+	obs := map[string]interface{}{"ev": "obs", "ok": err == nil, "inp": []jval{}, "out": []jval{}, "inp2": []jval{}, "out2": []jval{}}
 	if err != nil {
 		obs["detail"] = strings.SplitN(err.Error(), "\n", 2)[0]
 		return obs
 	}
 	obs["inp"] = valuesOf(f.Input())
 	obs["out"] = valuesOf(f.Output())
+	// use the function once as a target and once as a converter (both fail for lack of values - the graph is built all the same)
+	func() {
+		defer func() { recover() }()
+		f.Call()
+		am.MustFunc(am.NewFunc(func(struct{ X int }) {})).Call(am.ConverterFunc(f))
+	}()
+	obs["inp2"] = valuesOf(f.Input())
+	obs["out2"] = valuesOf(f.Output())
 	return obs
 }
 
@@ -507,6 +536,28 @@ func obsC15(raw json.RawMessage) map[string]interface{} {
 			}
 			return f.Input(), nil
 		}
+		if d.Kind == "struct" || d.Kind == "ptrstruct" {
+			sf := []reflect.StructField{{Name: "Struct", Type: tMarker, Anonymous: true}}
+			for i, v := range d.Vals {
+				tag := v.Name
+				if v.Name == "" {
+					tag += ",typeOnly"
+				}
+				if v.Sub != "" {
+					tag += ",subtype=" + v.Sub
+				}
+				sf = append(sf, reflect.StructField{Name: fmt.Sprintf("F%d", i), Type: tyOf(v.Type), Tag: reflect.StructTag(fmt.Sprintf("argmapper:%q", tag))})
+			}
+			st := reflect.StructOf(sf)
+			if d.Kind == "ptrstruct" {
+				st = reflect.PtrTo(st)
+			}
+			f, err := am.NewFunc(reflect.MakeFunc(reflect.FuncOf([]reflect.Type{st}, nil, false), func([]reflect.Value) []reflect.Value { return nil }).Interface())
+			if err != nil {
+				return nil, err
+			}
+			return f.Input(), nil
+		}
 		var vs []am.Value
 		for _, v := range d.Vals {
 			vs = append(vs, am.Value{Name: realStr(v.Name), Type: tyOf(v.Type), Subtype: realStr(v.Sub)})
@@ -514,7 +565,7 @@ func obsC15(raw json.RawMessage) map[string]interface{} {
 		return am.NewValueSet(vs)
 	}
 	n := len(d.Vals)
-	obs := map[string]interface{}{"ev": "obs", "ok": false, "values": []jval{}, "named": make([]int, n), "typed": make([]int, n), "ts": make([]int, n), "roundtrip": make([]int, n)}
+	obs := map[string]interface{}{"ev": "obs", "ok": false, "values": []jval{}, "named": make([]int, n), "typed": make([]int, n), "ts": make([]int, n), "roundtrip": make([]int, n), "roundtrip2": make([]int, n)}
 	set, err := mk()
 	if err != nil {
 		obs["detail"] = err.Error()
@@ -579,6 +630,16 @@ func obsC15(raw json.RawMessage) map[string]interface{} {
 			obs["detail"] = "FromSignature: " + err.Error()
 		}
 		rendered := set.SignatureValues()
+		again := set.SignatureValues() // a second rendering of the same set
+		rt2 := make([]int, n)
+		if set3, err := mk(); err == nil {
+			if err := set3.FromSignature(again); err == nil {
+				for i, v := range set3.Values() {
+					rt2[i] = scn.IDOf(v.Value)
+				}
+			}
+		}
+		obs["roundtrip2"] = rt2
 		set2, err := mk()
 		if err == nil {
 			if err := set2.FromSignature(rendered); err != nil {
